@@ -132,6 +132,17 @@ func (b *httpBackend) remove(o *object) {
 	b.mu.Unlock()
 }
 
+func (b *httpBackend) forget(hash string) {
+	b.mu.Lock()
+	for _, pre := range []string{"cas.v2", "cas", "ac", "raw"} {
+		delete(b.objects, pre+"/"+hash)
+	}
+	delete(b.putRecs, hash)
+	delete(b.plans, hash)
+	delete(b.upPlans, hash)
+	b.mu.Unlock()
+}
+
 func (b *httpBackend) holds(o *object) ([]byte, bool) {
 	b.mu.Lock()
 	defer b.mu.Unlock()
